@@ -50,6 +50,19 @@ func scenarios(thorough bool) []*sess.Scenario {
 					s.Queue = append([]*rpcsrv.Out{{Body: newSessionCreated(s.Salt), Content: true, Label: "new_session_created", Kind: -1}}, s.Queue...)
 				}
 			}},
+		// the same with a session store that fails once, at the announcement (the client only warns there); the
+		// rejection of the request that was on its way names the same salt and is the second chance to save it.
+		// The server keeps its order here: a store failure while a bad_server_salt is processed ends the process
+		// in the unchanged library, which no statement is about
+		{Name: "R-new-session-created-store-fails-once", Salt: 100, Opt: rpcsrv.Options{IDAtGeneration: true}, Callers: [][]sess.Call{{obj(1), obj(2)}},
+			Script: []rpcsrv.Event{{Kind: rpcsrv.EvRotate, Salt: 200, Label: "rotate+new_session_created"}},
+			Setup: func(w *sess.World) {
+				w.Store.FailAt = 1
+				w.Srv.OnRotate = func(s *rpcsrv.Server) {
+					s.LastToldSalt = s.Salt
+					s.Queue = append([]*rpcsrv.Out{{Body: newSessionCreated(s.Salt), Content: true, Label: "new_session_created", Kind: -1}}, s.Queue...)
+				}
+			}},
 	}
 	// freshly keyed sessions: the key exchange runs first in the same execution (its requests leave entries in
 	// the response table), then the salt rotates
@@ -133,10 +146,15 @@ func judge(run *vr.Run, sc *sess.Scenario, w *sess.World, choices []int) {
 	}
 	// (3)+(4): if the client was told about a new salt, the store has it and the last frame used it
 	told := false
+	news := 0
 	for _, e := range w.Srv.Emitted {
 		if len(e) >= 15 && (e[:15] == "plain:bad_serve" || e[:15] == "plain:new_sessi") || containsSaltNews(e, w) {
 			told = true
+			news++
 		}
+	}
+	if w.Store.FailAt > 0 && news < 2 {
+		told = false // the only occasion to save the salt is the one on which the store failed
 	}
 	if told {
 		if n := len(w.Store.Stores); n == 0 {
